@@ -767,10 +767,23 @@ class Crate(object):
             ty, meth = segs[-2], segs[-1]
             cands = [f for f in self.by_method.get(meth, []) if self.impl_info(f)[0] == ty
                      and self.impl_info(f)[1] is None]
+            if len(cands) > 1 and len(set(f.name for f in cands)) == 1:
+                # a `const fn` is dumped twice (runtime and const-eval body): the first is the runtime MIR
+                return cands[0]
             if len(cands) == 1:
                 return cands[0]
             if len(cands) > 1:
                 raise Unsupported('ambiguous callee %s: %s' % (callee, [f.name for f in cands]))
+        if segs:
+            # free function of the crate (module-level helper), possibly called through its module path
+            meth = segs[-1]
+            cands = [f for f in self.by_method.get(meth, []) if '<impl at' not in f.name
+                     and (len(segs) == 1 or f.name.endswith('::'.join(segs[-2:])) or f.name == meth)]
+            names = set(f.name for f in cands)
+            if len(names) == 1:
+                return cands[0]
+            if len(names) > 1:
+                raise Unsupported('ambiguous free function %s: %s' % (callee, sorted(names)))
         return None
 
     def closure(self, ty):
